@@ -36,8 +36,20 @@ def _build(ctx, i, kind, masks=False, stub=False, rescale=False):
     else:
         nvec, nA = (), int(rng.integers(2, 5))
     tabs = random_tables(rng, nS, nA, p_term=float(rng.choice([0.0, 0.15, 0.35])),
-                         p_trunc=float(rng.choice([0.0, 0.0, 0.2])), with_masks=masks,
+                         p_trunc=float(rng.choice([0.0, 0.0, 0.2])), with_masks=masks and kind == "discrete",
                          n_starts=int(rng.integers(1, 4)))
+
+    def md_masks(n_states):
+        # MultiDiscrete: one flat mask of sum(nvec) entries per state, every component keeps an allowed value
+        m = rng.random((n_states, sum(nvec))) < 0.55
+        o = 0
+        for n in nvec:
+            m[np.arange(n_states), o + rng.integers(0, n, n_states)] = True
+            o += n
+        return m
+
+    if masks and kind == "multidiscrete":
+        tabs["masks"] = md_masks(nS)
     tl = [None, 1, 2, 3, 5][int(rng.integers(0, 5))]
     if i % 4 == 0:
         # force terminal and time-limit truncation on the same step: chain of length L with TimeLimit L
@@ -48,7 +60,9 @@ def _build(ctx, i, kind, masks=False, stub=False, rescale=False):
         tabs["term"] = np.arange(nS) == L
         tabs["trunc"] = np.zeros(nS, bool)
         tabs["starts"] = np.array([0])
-        if masks:
+        if masks and kind == "multidiscrete":
+            tabs["masks"] = md_masks(nS)
+        elif masks:
             m = rng.random((nS, nA)) < 0.6
             m[np.arange(nS), rng.integers(0, nA, nS)] = True
             tabs["masks"] = m
@@ -115,6 +129,11 @@ def _judge_stream(ctx, tag, ref, tl, gamma, st_in, st_out, buf, ev_values, ev_lo
                 bad("recorded-mask-not-env-mask", {"got": masks[k], "want": ref.masks[s]})
             if ref.kind == "discrete" and not bool(ref.masks[s][int(act[k])]):
                 bad("masked-action-executed", {"action": act[k], "mask": ref.masks[s]})
+            if ref.kind == "multidiscrete":
+                ctx.monitor("multidiscrete_actions_checked_against_the_offered_mask")
+                offs = np.concatenate([[0], np.cumsum(ref.nvec)[:-1]])
+                if not all(bool(ref.masks[s][int(o_) + int(a_)]) for o_, a_ in zip(offs, np.asarray(act[k]).ravel())):
+                    bad("masked-action-executed", {"action": act[k], "mask": ref.masks[s], "nvec": list(ref.nvec)})
         if pol_states is not None:
             if int(pick(pol_states)[k]) != pn:
                 bad("stored-policy-state-not-the-acting-one", {"got": int(pick(pol_states)[k]), "want": pn})
@@ -338,6 +357,7 @@ def run_unit(name, ctx):
         _run_kind(ctx, "multibinary", n=ctx.n(6, 30))
     elif name == "multidiscrete":
         _run_kind(ctx, "multidiscrete", n=ctx.n(6, 30))
+        _run_kind(ctx, "multidiscrete", masks=True, n=ctx.n(6, 30))
         if ctx.monitors.get("policy_construction_failures"):
             # C16/C18 own this defect; this unit then has nothing to observe and says so without failing C04
             ctx.case({"kind": "multidiscrete", "note": "policy not constructible on this tree"}, nontrivial=False)
